@@ -218,6 +218,31 @@ def bounded(ctx):
                 viol.append(dict(name="first_wins", what="combined registry: for the shared id 'alpha' the item of the member added second was kept",
                                  case=dict(order=[len(list(r)) for r in order])))
         samples.append(dict(registry="directory", keys=sorted(r1)))
+        # (4) members that grow: every add_registry(m) must leave the union holding every key m has *at that moment*
+        # (postcondition of add_registry), also when m was added before -- a nested combined registry that received a
+        # further member, a directory in which a file was deposited -- and earlier entries keep winning
+        inner, outer = base.CombinedRegistry(), base.CombinedRegistry()
+        outer << inner
+        inner << r2
+        outer << inner
+        evals += check_mapping(outer, "outer << inner(empty); inner << dir2; outer << inner", viol, expect_keys={"alpha", "delta"})
+        inner << r1
+        outer << inner
+        outer << inner
+        evals += check_mapping(outer, "... inner << dir1; outer << inner (twice)", viol, expect_keys={"alpha", "beta", "delta"})
+        if "alpha" in outer and str(outer["alpha"].entity.record.seq).upper() != p3.upper():
+            viol.append(dict(name="first_wins_regrown", what="re-adding a grown member replaced the entry that was there first",
+                             case=dict(scenario="nested combined registries")))
+        d3 = make_dir(ctx, {"one.gb": gb_text("one", p1)})
+        dirs.append(d3)
+        r4 = base.FilesystemRegistry(d3, Entry)
+        comb = base.CombinedRegistry()
+        comb << r4
+        with open(os.path.join(d3, "two.gb"), "w") as fh:
+            fh.write(gb_text("two", p2))
+        comb << r4
+        evals += check_mapping(comb, "directory registry added, a file deposited, added again", viol, expect_keys={"one", "two"})
+        distinct.update({("grown", "nested"), ("grown", "directory")})
     finally:
         for d in dirs:
             shutil.rmtree(d, ignore_errors=True)
@@ -230,7 +255,8 @@ def bounded(ctx):
                      "the archives; (2) combinations (pairs in both orders, a registry with itself, three, all five) against the "
                      "union of keys; (3) generated directories with supported/unsupported extensions, a non-GenBank file, a file "
                      "without extension, sub-directories, custom extension list, two directories sharing an id combined in both "
-                     "orders (first one wins); absent keys include names with path separators",
+                     "orders (first one wins); absent keys include names with path separators; (4) members that grow between two "
+                     "add_registry calls (nested combined registry, directory receiving a file)",
                 bound="2 generated directories of <= 7 entries", exhaustive="embedded archives: all items of the 5 registries",
                 samples=samples, violations=list(uniq.values())[:20], n_violations=len(uniq))
 
